@@ -1,0 +1,20 @@
+//go:build verif
+
+package kv
+
+import "errors"
+
+// VerifC10CompactSync runs the level-0 compaction job of a family on the caller's goroutine
+// (verification hook for property C10: the production path, family.compact(), runs exactly
+// this job in a background goroutine and offers no way to wait for it).
+func VerifC10CompactSync(f Family) error {
+	fam, ok := f.(*family)
+	if !ok {
+		return errors.New("verif: not a kv family")
+	}
+	if !fam.compacting.CompareAndSwap(false, true) {
+		return errors.New("verif: compaction already running")
+	}
+	defer fam.compacting.Store(false)
+	return fam.backgroundCompactionJob()
+}
